@@ -264,6 +264,16 @@ const TF thdm_fns[] = {
    {"yukawas", [](const THDM& m) -> double { return fold(m.get_yuh()) + fold(m.get_ydH()) + fold(m.get_ylA()) + fold(m.get_yuHp()) + fold(m.get_ylHp()); }},
    {"zetas", [](const THDM& m) -> double { return m.get_zeta_u() + 2 * m.get_zeta_d() + 3 * m.get_zeta_l(); }},
    {"spectrum", [](const THDM& m) -> double { return m.get_Mhh(0) + 2 * m.get_Mhh(1) + 3 * m.get_MAh(1) + 4 * m.get_MHm(1) + m.get_alpha_h() + m.get_beta() + m.get_eta() + m.get_LambdaFive() + m.get_LambdaSixSeven(); }},
+   {"sm_derived", [](const THDM& m) -> double { const auto& sm = m.get_sm();
+      return sm.get_e_0() + 2 * sm.get_e_mz() + 3 * sm.get_gY() + 5 * sm.get_g2() + 7 * sm.get_g3() + 11 * sm.get_cw() + 13 * sm.get_sw() + 17 * sm.get_v() + fold(sm.get_ckm()) + fold(sm.get_mu()) + fold(sm.get_md()) + fold(sm.get_ml()); }},
+   {"c_api_misc", [](const THDM& m) -> double {
+      // the small functions of the C interface, from several threads at once
+      double r = m.get_tan_beta();
+      for (int e = -1; e <= 4; ++e) { const char* t = gm2calc_error_str((gm2calc_error)e); for (const char* p = t; p && *p; ++p) r = r * 1.0000001 + (unsigned char)*p; }
+      for (int y = 1; y <= 6; ++y) r += (double)int_to_c_yukawa_type(y) * y;
+      ::gm2calc_SM sm; gm2calc_sm_set_to_default(&sm); r += sm.mw + sm.mz + sm.alpha_s_mz + sm.ckm_real[0][1] + sm.mu[2];
+      ::gm2calc_THDM_config cfg; gm2calc_thdm_config_set_to_default(&cfg); r += cfg.force_output + 2 * cfg.running_couplings;
+      return r; }},
    {"problems", [](const THDM& m) -> double { return m.get_problems().have_warning() + 2.0 * m.get_problems().have_problem() + 4.0 * m.get_problems().get_problems().size(); }},
 };
 #undef F
@@ -321,6 +331,7 @@ uint64_t getters_thdm(const THDM& m)
    const auto& sm = m.get_sm();
    h.d(sm.get_alpha_em_0()); h.d(sm.get_alpha_em_mz()); h.d(sm.get_alpha_s_mz()); h.d(sm.get_mh()); h.d(sm.get_mw()); h.d(sm.get_mz());
    h.a(sm.get_mu()); h.a(sm.get_md()); h.a(sm.get_mv()); h.a(sm.get_ml()); h.a(sm.get_ckm());
+   h.d(sm.get_e_0()); h.d(sm.get_e_mz()); h.d(sm.get_gY()); h.d(sm.get_g2()); h.d(sm.get_g3()); h.d(sm.get_cw()); h.d(sm.get_sw()); h.d(sm.get_v());
    h.s(m.get_problems().get_problems()); h.s(m.get_problems().get_warnings());
    return h.h;
 }
